@@ -31,10 +31,14 @@ fn gen_text(rng: &mut Rng, keys: &[String]) -> String {
 
 /// what is compared for one analysis: boundaries, word ids, requested fields
 fn snapshot(t: &Tok, bits: u32) -> Result<Vec<(usize, usize, u32, Vec<String>)>, String> {
-    let obs = observe(&t.list);
+    snapshot_list(&t.list, bits)
+}
+
+fn snapshot_list(list: &MorphemeList<&sudachi::dic::dictionary::JapaneseDictionary>, bits: u32) -> Result<Vec<(usize, usize, u32, Vec<String>)>, String> {
+    let obs = observe(list);
     let mut v = vec![];
     for (k, o) in obs.iter().enumerate() {
-        let f = field_values(t.list.get(k).get_word_info());
+        let f = field_values(list.get(k).get_word_info());
         let req: Vec<String> = (0..10).filter(|i| bits & (1 << i) != 0).map(|i| format!("{}={}", FIELD_NAMES[i], f[i])).collect();
         v.push((o.begin, o.end, o.word_id, req));
     }
@@ -247,6 +251,33 @@ pub fn run(ctx: &Ctx, rep: &mut Report) {
                 match (sl, sf) {
                     (Ok(Ok(a)), Ok(Ok(b))) => {
                         rep.count("probes_compared", 1);
+                        // the tokenizer without state (a new analyser per call, all fields) is one more "fresh" reference
+                        if hi % 2 == 0 && (!has_pr || bits & PATH_REWRITE_NEEDS == PATH_REWRITE_NEEDS) {
+                            use sudachi::analysis::stateless_tokenizer::StatelessTokenizer;
+                            use sudachi::analysis::Tokenize;
+                            let st = guard(|| StatelessTokenizer::new(&world.dict).tokenize(&probe, mode, false).map_err(|e| format!("{:?}", e)).and_then(|l| snapshot_list(&l, bits)));
+                            match st {
+                                Ok(Ok(c)) => {
+                                    rep.count("probes_compared_with_stateless_tokenizer", 1);
+                                    if c != b {
+                                        let k = c.iter().zip(b.iter()).position(|(x, y)| x != y).unwrap_or(c.len().min(b.len()));
+                                        rep.violation("history_dependence", "StatelessTokenizer::tokenize", &format!("morpheme {} differs: stateless tokenizer {:?} vs freshly created stateful tokenizer {:?} ({} vs {} morphemes)", k, c.get(k), b.get(k), c.len(), b.len()), "", scen(""));
+                                        ok_history = false;
+                                        break;
+                                    }
+                                }
+                                Ok(Err(e)) => {
+                                    rep.violation("outcome_differs", "StatelessTokenizer::tokenize", &format!("the stateful tokenizer analyses the probe, the stateless one reports {}", e), "", scen(""));
+                                    ok_history = false;
+                                    break;
+                                }
+                                Err(p) => {
+                                    rep.violation("history_panic", &p.site, &format!("the stateless tokenizer panics on a probe that a fresh stateful tokenizer analyses: {}", p.msg), "", scen(""));
+                                    ok_history = false;
+                                    break;
+                                }
+                            }
+                        }
                         if a != b {
                             let k = a.iter().zip(b.iter()).position(|(x, y)| x != y).unwrap_or(a.len().min(b.len()));
                             rep.violation("history_dependence", "probe", &format!("morpheme {} differs: long-lived {:?} vs fresh {:?} ({} vs {} morphemes)", k, a.get(k), b.get(k), a.len(), b.len()), "", scen(""));
